@@ -34,7 +34,7 @@ RULE = ("case = definitions + 1-3 calls (entry point, supplied name/kind/value t
         "parameters and at least one supplied value that needs conversion or must be rejected; distinct by sha1(case)")
 ASSUMPTIONS = ["the CLI helper is only driven with shipped algorithm names (it reloads the module by name)"]
 BUDGET = {"quick": {"workers": 8, "examples": 2000, "seconds": 30},
-          "thorough": {"workers": 16, "examples": 15000, "seconds": 400}}
+          "thorough": {"workers": 16, "examples": 45000, "seconds": 450}}
 
 SHIPPED = ["adsa", "amaxsum", "dba", "dpop", "dsa", "dsatuto", "gdba", "maxsum", "maxsum_dynamic", "mgm", "mgm2",
            "mixeddsa", "ncbb", "syncbb"]
